@@ -424,3 +424,792 @@ Lemma SE_upd st t x mid : SE st t -> tasks mid = upd (tasks st) t x -> SE mid t.
 Proof.
   intros Hs Hm u tk Hne. rewrite Hm, nth_error_upd_other by exact Hne. apply Hs. exact Hne.
 Qed.
+
+(* ------------------------------------------------------------ one step preserves the invariant *)
+
+Ltac counts Hn new :=
+  pose proof (cnt_upd is_inR _ _ _ new Hn);
+  pose proof (cnt_upd is_inW _ _ _ new Hn);
+  pose proof (cnt_upd is_HB _ _ _ new Hn);
+  pose proof (cnt_upd is_holdRL _ _ _ new Hn).
+
+Arguments m_resume : simpl never.
+Arguments m_cancel : simpl never.
+Ltac norm := cbn [set_task set_wl set_rl set_err set_counter tasks rl wl counter err locked waiters m_release b2n negb orb].
+
+Lemma leave_good st t tk rest dying st' ev :
+  InvG st -> SE st t -> nth_error (tasks st) t = Some tk ->
+  leave st t (tpc tk) rest dying = Some (st', ev) -> Good st t st'.
+Proof.
+  intros HI Hs Hn Hl. unfold leave in Hl.
+  destruct (kind_of_pc (tpc tk)) as [k|] eqn:Ek; [|discriminate].
+  inversion Hl; subst st' ev; clear Hl.
+  set (new := mkTask rest (if dying then Dead else Start) false).
+  assert (Hnew : is_inR (tpc new) = false /\ is_inW (tpc new) = false /\ is_HB (tpc new) = false
+                 /\ is_holdRL (tpc new) = false /\ is_waitRL (tpc new) = false /\ is_waitWL (tpc new) = false
+                 /\ needs_prog (tpc new) = false /\ stable (tpc new) = true)
+    by (unfold new; destruct dying; cbn; repeat split).
+  destruct Hnew as (N1 & N2 & N3 & N4 & N5 & N6 & N7 & N8).
+  pose proof (SE_HB _ _ _ Hs Hn) as Hhb.
+  counts Hn new. rewrite N1, N2, N3, N4 in *.
+  pose proof (g_cnt _ HI) as Gc. pose proof (g_wl _ HI) as Gw. pose proof (g_rl _ HI) as Gr.
+  pose proof (g_err _ HI) as Ge.
+  assert (Hq1 : forall q, is_waitRL (tpc tk) = false -> queue_ok is_waitRL (tasks st) q -> queue_ok is_waitRL (upd (tasks st) t new) q)
+    by (intros q Ho Hq; eapply q_same; eauto; congruence).
+  assert (Hq2 : forall q, is_waitWL (tpc tk) = false -> queue_ok is_waitWL (tasks st) q -> queue_ok is_waitWL (upd (tasks st) t new) q)
+    by (intros q Ho Hq; eapply q_same; eauto; congruence).
+  assert (Hpn : needs_prog (tpc new) = true -> prog new <> []) by (rewrite N7; discriminate).
+  split; [|exists new; split; [destruct k; unfold unlock_r, unlock_w, release_wl; destruct (counter st) as [|[|n]]; reflexivity|exact N8]].
+  destruct k.
+  - (* reader *)
+    assert (Er : is_inR (tpc tk) = true /\ is_inW (tpc tk) = false /\ is_HB (tpc tk) = false /\ is_holdRL (tpc tk) = false
+                 /\ is_waitRL (tpc tk) = false /\ is_waitWL (tpc tk) = false)
+      by (destruct (tpc tk); cbn in Ek; try discriminate; cbn; repeat split).
+    destruct Er as (O1 & O2 & O3 & O4 & O5 & O6). rewrite O1, O2, O3, O4 in *. specialize (Hhb eq_refl).
+    cbn [b2n] in *.
+    unfold unlock_r. destruct (counter st) as [|n] eqn:Ec; [lia|].
+    destruct (locked (wl st)) eqn:Elw; cbn [b2n] in Gw; [|lia].
+    destruct n as [|n]; unfold release_wl;
+      (apply (invg_upd st t tk new); norm;
+       [exact HI|exact Hn|rewrite ?Ge, ?Elw; reflexivity|rewrite O1, N1; cbn [b2n]; lia|rewrite ?Elw; cbn [b2n]; lia|lia
+       |apply Hq1; [exact O5|apply (g_qr _ HI)]
+       |rewrite ?tids_release; apply Hq2; [exact O6|apply (g_qw _ HI)]
+       |apply (g_mr _ HI)
+       |try apply minv_release; apply (g_mw _ HI)
+       |exact Hpn]).
+  - (* writer *)
+    assert (Er : is_inR (tpc tk) = false /\ is_inW (tpc tk) = true /\ is_HB (tpc tk) = false /\ is_holdRL (tpc tk) = false
+                 /\ is_waitRL (tpc tk) = false /\ is_waitWL (tpc tk) = false)
+      by (destruct (tpc tk); cbn in Ek; try discriminate; cbn; repeat split).
+    destruct Er as (O1 & O2 & O3 & O4 & O5 & O6). rewrite O1, O2, O3, O4 in *. specialize (Hhb eq_refl).
+    cbn [b2n] in *.
+    destruct (locked (wl st)) eqn:Elw; cbn [b2n] in Gw; [|lia].
+    unfold unlock_w, release_wl.
+    apply (invg_upd st t tk new); norm;
+       [exact HI|exact Hn|rewrite ?Ge, ?Elw; reflexivity|rewrite O1, N1; cbn [b2n]; lia|rewrite ?Elw; cbn [b2n]; lia|lia
+       |apply Hq1; [exact O5|apply (g_qr _ HI)]
+       |rewrite ?tids_release; apply Hq2; [exact O6|apply (g_qw _ HI)]
+       |apply (g_mr _ HI)
+       |try apply minv_release; apply (g_mw _ HI)
+       |exact Hpn].
+Qed.
+
+Lemma set_same st t tk new :
+  InvG st -> nth_error (tasks st) t = Some tk ->
+  is_inR (tpc new) = is_inR (tpc tk) -> is_inW (tpc new) = is_inW (tpc tk) ->
+  is_HB (tpc new) = is_HB (tpc tk) -> is_holdRL (tpc new) = is_holdRL (tpc tk) ->
+  is_waitRL (tpc new) = is_waitRL (tpc tk) -> is_waitWL (tpc new) = is_waitWL (tpc tk) ->
+  (needs_prog (tpc new) = true -> prog new <> []) ->
+  InvG (set_task st t new).
+Proof.
+  intros HI Hn E1 E2 E3 E4 E5 E6 Hp. counts Hn new. rewrite E1, E2, E3, E4 in *.
+  pose proof (g_cnt _ HI) as Gc. pose proof (g_wl _ HI) as Gw. pose proof (g_rl _ HI) as Gr.
+  unfold set_task. apply (invg_upd st t tk new);
+    [exact HI|exact Hn|apply (g_err _ HI)|rewrite E1; lia|lia|lia
+    |eapply q_same; [exact Hn|symmetry; exact E5|apply (g_qr _ HI)]
+    |eapply q_same; [exact Hn|symmetry; exact E6|apply (g_qw _ HI)]
+    |apply (g_mr _ HI)|apply (g_mw _ HI)|exact Hp].
+Qed.
+
+Lemma tasks_set_task st t x : tasks (set_task st t x) = upd (tasks st) t x.
+Proof. reflexivity. Qed.
+
+Lemma at_cs_good st t tk a rest st' ev :
+  InvG st -> SE st t -> nth_error (tasks st) t = Some tk ->
+  at_cs st t a rest (tpc tk) = Some (st', ev) -> Good st t st'.
+Proof.
+  intros HI Hs Hn H. unfold at_cs in H.
+  destruct (tpc tk) as [| | |k| |k| | | | |[|k]|[|k]] eqn:Ep; try discriminate.
+  - rewrite <- Ep in H. eapply leave_good; eauto.
+  - inversion H; subst. split.
+    + eapply set_same; [exact HI|exact Hn|rewrite Ep; reflexivity..|discriminate].
+    + eexists; split; [reflexivity|reflexivity].
+  - rewrite <- Ep in H. eapply leave_good; eauto.
+  - inversion H; subst. split.
+    + eapply set_same; [exact HI|exact Hn|rewrite Ep; reflexivity..|discriminate].
+    + eexists; split; [reflexivity|reflexivity].
+Qed.
+
+Lemma cons_ev_some e r st' ev : cons_ev e r = Some (st', ev) -> exists ev0, r = Some (st', ev0).
+Proof. destruct r as [[s x]|]; cbn; intro H; inversion H; subst. eexists; reflexivity. Qed.
+
+(* [mid]: the state right after the lock was obtained and the pc set to AtR/AtW *)
+Lemma enter_via st t k a rest st' ev mid :
+  mid = set_task st t (mkTask (a :: rest) (match k with KR => AtR (ay a) | KW => AtW (ay a) end) false) ->
+  InvG mid -> SE st t -> (exists old, nth_error (tasks st) t = Some old) ->
+  enter st t k a rest = Some (st', ev) -> Good st t st'.
+Proof.
+  intros -> HI Hs (old & Hn) H. unfold enter in H. apply cons_ev_some in H as (ev0 & H).
+  eapply Good_trans; [apply tasks_set_task|].
+  eapply at_cs_good; [exact HI|eapply SE_upd; [exact Hs|apply tasks_set_task]| |].
+  - cbn [tasks set_task]. eapply nth_error_upd_same; exact Hn.
+  - cbn [tpc]. exact H.
+Qed.
+
+Lemma hold_both_good st t tk a rest st' ev :
+  InvG st -> SE st t -> nth_error (tasks st) t = Some tk -> tpc tk = HoldBoth ->
+  hold_both st t a rest = Some (st', ev) -> Good st t st'.
+Proof.
+  intros HI Hs Hn Ep H. unfold hold_both in H.
+  assert (Hmid : InvG (set_task (release_rl (set_counter st (S (counter st)))) t
+                         (mkTask (a :: rest) (AtR (ay a)) false))).
+  { counts Hn (mkTask (a :: rest) (AtR (ay a)) false).
+    pose proof (g_cnt _ HI) as Gc. pose proof (g_wl _ HI) as Gw. pose proof (g_rl _ HI) as Gr.
+    pose proof (g_err _ HI) as Ge.
+    rewrite Ep in *. cbn [tpc is_inR is_inW is_HB is_holdRL b2n] in *.
+    destruct (locked (rl st)) eqn:Elr; cbn [b2n] in Gr; [|lia].
+    unfold release_rl.
+    apply (invg_upd st t tk (mkTask (a :: rest) (AtR (ay a)) false)); norm;
+      [exact HI|exact Hn|rewrite Ge, Elr; reflexivity|rewrite Ep; cbn [tpc is_inR b2n]; lia|lia|lia
+      |rewrite tids_release; eapply q_same; [exact Hn|rewrite Ep; reflexivity|apply (g_qr _ HI)]
+      |eapply q_same; [exact Hn|rewrite Ep; reflexivity|apply (g_qw _ HI)]
+      |apply minv_release, (g_mr _ HI)|apply (g_mw _ HI)|discriminate]. }
+  assert (Hs' : SE (release_rl (set_counter st (S (counter st)))) t) by exact Hs.
+  assert (Hg : Good (release_rl (set_counter st (S (counter st)))) t st').
+  { eapply (enter_via _ t KR a rest st' ev); [reflexivity|exact Hmid|exact Hs'|eexists; exact Hn|exact H]. }
+  exact Hg.
+Qed.
+
+Lemma hold_rl_good st t tk a rest st' ev :
+  InvG st -> SE st t -> nth_error (tasks st) t = Some tk -> tpc tk = HoldRL ->
+  hold_rl st t a rest = Some (st', ev) -> Good st t st'.
+Proof.
+  intros HI Hs Hn Ep H. unfold hold_rl in H.
+  pose proof (SE_HB _ _ _ Hs Hn) as Hhb. rewrite Ep in Hhb. specialize (Hhb eq_refl).
+  pose proof (g_cnt _ HI) as Gc. pose proof (g_wl _ HI) as Gw. pose proof (g_rl _ HI) as Gr.
+  pose proof (g_err _ HI) as Ge.
+  destruct (counter st) as [|n] eqn:Ec.
+  - destruct (m_acquire (wl st) t) as [ok m] eqn:Ea. destruct ok.
+    + (* fast *)
+      pose proof (minv_acquire_fast _ _ _ Ea) as Hm.
+      apply acquire_fast in Ea as (Elw & _ & ->).
+      match type of H with hold_both ?m _ _ _ = _ => set (mid := m) in * end.
+      assert (Hmid : InvG mid).
+      { counts Hn (mkTask (a :: rest) HoldBoth false).
+        rewrite Ep in *. cbn [tpc is_inR is_inW is_HB is_holdRL b2n] in *. rewrite Elw in Gw. cbn [b2n] in Gw.
+        unfold mid, set_task, set_wl. norm.
+        apply (invg_upd st t tk (mkTask (a :: rest) HoldBoth false)); norm;
+          [exact HI|exact Hn|exact Ge|rewrite Ep; cbn [tpc is_inR b2n]; lia|lia|lia
+          |eapply q_same; [exact Hn|rewrite Ep; reflexivity|apply (g_qr _ HI)]
+          |eapply q_same; [exact Hn|rewrite Ep; reflexivity|apply (g_qw _ HI)]
+          |apply (g_mr _ HI)|exact Hm|discriminate]. }
+      assert (Hg : Good mid t st').
+      { eapply (hold_both_good mid t (mkTask (a :: rest) HoldBoth false));
+          [exact Hmid|eapply SE_upd; [exact Hs|reflexivity]
+          |unfold mid; cbn [tasks set_task set_wl]; eapply nth_error_upd_same; exact Hn
+          |reflexivity|exact H]. }
+      eapply Good_trans; [|exact Hg]. reflexivity.
+    + (* slow: suspend holding the read mutex *)
+      pose proof (minv_acquire_slow _ _ _ (g_mw _ HI) Ea) as Hm.
+      apply acquire_slow in Ea as (-> & _).
+      inversion H; subst st' ev. split; [|eexists; split; [reflexivity|reflexivity]].
+      counts Hn (mkTask (a :: rest) WaitWLr false).
+      rewrite Ep in *. cbn [tpc is_inR is_inW is_HB is_holdRL b2n] in *.
+      unfold set_task, set_wl. norm.
+      apply (invg_upd st t tk (mkTask (a :: rest) WaitWLr false)); norm;
+        [exact HI|exact Hn|exact Ge|rewrite Ep; cbn [tpc is_inR b2n]; lia|lia|lia
+        |eapply q_same; [exact Hn|rewrite Ep; reflexivity|apply (g_qr _ HI)]
+        | |apply (g_mr _ HI)|exact Hm|discriminate].
+      unfold tids; cbn [waiters]. rewrite map_app. cbn [map fst].
+      eapply q_add; [exact Hn|rewrite Ep; reflexivity|reflexivity|apply (g_qw _ HI)].
+  - match type of H with hold_both ?m _ _ _ = _ => set (mid := m) in * end.
+    assert (Hmid : InvG mid).
+    { counts Hn (mkTask (a :: rest) HoldBoth false).
+      rewrite Ep in *. cbn [tpc is_inR is_inW is_HB is_holdRL b2n] in *.
+      unfold mid, set_task. norm.
+      apply (invg_upd st t tk (mkTask (a :: rest) HoldBoth false)); norm;
+        [exact HI|exact Hn|exact Ge|rewrite Ep; cbn [tpc is_inR b2n]; lia|lia|lia
+        |eapply q_same; [exact Hn|rewrite Ep; reflexivity|apply (g_qr _ HI)]
+        |eapply q_same; [exact Hn|rewrite Ep; reflexivity|apply (g_qw _ HI)]
+        |apply (g_mr _ HI)|apply (g_mw _ HI)|discriminate]. }
+    assert (Hg : Good mid t st').
+    { eapply (hold_both_good mid t (mkTask (a :: rest) HoldBoth false));
+        [exact Hmid|eapply SE_upd; [exact Hs|reflexivity]
+        |unfold mid; cbn [tasks set_task]; eapply nth_error_upd_same; exact Hn
+        |reflexivity|exact H]. }
+    eapply Good_trans; [|exact Hg]. reflexivity.
+Qed.
+
+Lemma begin_good st t tk a rest st' ev :
+  InvG st -> SE st t -> nth_error (tasks st) t = Some tk -> tpc tk = Start ->
+  begin Fixed st t a rest = Some (st', ev) -> Good st t st'.
+Proof.
+  intros HI Hs Hn Ep H. unfold begin in H.
+  pose proof (SE_HB _ _ _ Hs Hn) as Hhb. rewrite Ep in Hhb. specialize (Hhb eq_refl).
+  pose proof (g_cnt _ HI) as Gc. pose proof (g_wl _ HI) as Gw. pose proof (g_rl _ HI) as Gr.
+  pose proof (g_err _ HI) as Ge.
+  destruct (ak a).
+  - (* reader *)
+    destruct (m_acquire (rl st) t) as [ok m] eqn:Ea. destruct ok.
+    + pose proof (minv_acquire_fast _ _ _ Ea) as Hm.
+      apply acquire_fast in Ea as (Elr & _ & ->).
+      match type of H with hold_rl ?m _ _ _ = _ => set (mid := m) in * end.
+      assert (Hmid : InvG mid).
+      { counts Hn (mkTask (a :: rest) HoldRL false).
+        rewrite Ep in *. cbn [tpc is_inR is_inW is_HB is_holdRL b2n] in *. rewrite Elr in Gr. cbn [b2n] in Gr.
+        unfold mid, set_task, set_rl. norm.
+        apply (invg_upd st t tk (mkTask (a :: rest) HoldRL false)); norm;
+          [exact HI|exact Hn|exact Ge|rewrite Ep; cbn [tpc is_inR b2n]; lia|lia|lia
+          |eapply q_same; [exact Hn|rewrite Ep; reflexivity|apply (g_qr _ HI)]
+          |eapply q_same; [exact Hn|rewrite Ep; reflexivity|apply (g_qw _ HI)]
+          |exact Hm|apply (g_mw _ HI)|discriminate]. }
+      assert (Hg : Good mid t st').
+      { eapply (hold_rl_good mid t (mkTask (a :: rest) HoldRL false));
+          [exact Hmid|eapply SE_upd; [exact Hs|reflexivity]
+          |unfold mid; cbn [tasks set_task set_rl]; eapply nth_error_upd_same; exact Hn
+          |reflexivity|exact H]. }
+      eapply Good_trans; [|exact Hg]. reflexivity.
+    + pose proof (minv_acquire_slow _ _ _ (g_mr _ HI) Ea) as Hm.
+      apply acquire_slow in Ea as (-> & _).
+      inversion H; subst st' ev. split; [|eexists; split; [reflexivity|reflexivity]].
+      counts Hn (mkTask (a :: rest) WaitRL false).
+      rewrite Ep in *. cbn [tpc is_inR is_inW is_HB is_holdRL b2n] in *.
+      unfold set_task, set_rl. norm.
+      apply (invg_upd st t tk (mkTask (a :: rest) WaitRL false)); norm;
+        [exact HI|exact Hn|exact Ge|rewrite Ep; cbn [tpc is_inR b2n]; lia|lia|lia
+        | |eapply q_same; [exact Hn|rewrite Ep; reflexivity|apply (g_qw _ HI)]
+        |exact Hm|apply (g_mw _ HI)|discriminate].
+      unfold tids; cbn [waiters]. rewrite map_app. cbn [map fst].
+      eapply q_add; [exact Hn|rewrite Ep; reflexivity|reflexivity|apply (g_qr _ HI)].
+  - (* writer *)
+    destruct (m_acquire (wl st) t) as [ok m] eqn:Ea. destruct ok.
+    + pose proof (minv_acquire_fast _ _ _ Ea) as Hm.
+      apply acquire_fast in Ea as (Elw & _ & ->).
+      match type of H with enter ?m _ _ _ _ = _ => set (st1 := m) in * end.
+      assert (Hg : Good st1 t st'); [|exact Hg].
+      eapply (enter_via st1 t KW a rest st' ev); [reflexivity| |exact Hs|eexists; exact Hn|exact H].
+      unfold st1.
+      counts Hn (mkTask (a :: rest) (AtW (ay a)) false).
+      rewrite Ep in *. cbn [tpc is_inR is_inW is_HB is_holdRL b2n] in *. rewrite Elw in Gw. cbn [b2n] in Gw.
+      unfold set_task, set_wl. norm.
+      apply (invg_upd st t tk (mkTask (a :: rest) (AtW (ay a)) false)); norm;
+        [exact HI|exact Hn|exact Ge|rewrite Ep; cbn [tpc is_inR b2n]; lia|lia|lia
+        |eapply q_same; [exact Hn|rewrite Ep; reflexivity|apply (g_qr _ HI)]
+        |eapply q_same; [exact Hn|rewrite Ep; reflexivity|apply (g_qw _ HI)]
+        |apply (g_mr _ HI)|exact Hm|discriminate].
+    + pose proof (minv_acquire_slow _ _ _ (g_mw _ HI) Ea) as Hm.
+      apply acquire_slow in Ea as (-> & _).
+      inversion H; subst st' ev. split; [|eexists; split; [reflexivity|reflexivity]].
+      counts Hn (mkTask (a :: rest) WaitWLw false).
+      rewrite Ep in *. cbn [tpc is_inR is_inW is_HB is_holdRL b2n] in *.
+      unfold set_task, set_wl. norm.
+      apply (invg_upd st t tk (mkTask (a :: rest) WaitWLw false)); norm;
+        [exact HI|exact Hn|exact Ge|rewrite Ep; cbn [tpc is_inR b2n]; lia|lia|lia
+        |eapply q_same; [exact Hn|rewrite Ep; reflexivity|apply (g_qr _ HI)]
+        | |apply (g_mr _ HI)|exact Hm|discriminate].
+      unfold tids; cbn [waiters]. rewrite map_app. cbn [map fst].
+      eapply q_add; [exact Hn|rewrite Ep; reflexivity|reflexivity|apply (g_qw _ HI)].
+Qed.
+
+Lemma not_cancelled_woken m t tk :
+  ready_wst (wst_of (waiters m) t) = true -> cancelled_at m t tk = false ->
+  wst_of (waiters m) t = Some Woken.
+Proof.
+  unfold cancelled_at. destruct (wst_of (waiters m) t) as [[]|]; cbn; try discriminate;
+    destruct (mc tk); cbn; congruence.
+Qed.
+
+Lemma run_good st t tk st' ev :
+  InvG st -> SE st t -> nth_error (tasks st) t = Some tk -> enabled st t = true ->
+  run Fixed st t = Some (st', ev) -> Good st t st'.
+Proof.
+  intros HI Hs Hn En H. unfold run in H. rewrite En, Hn in H. cbn [negb] in H.
+  unfold enabled in En. rewrite Hn in En.
+  pose proof (SE_HB _ _ _ Hs Hn) as Hhb.
+  pose proof (g_cnt _ HI) as Gc. pose proof (g_wl _ HI) as Gw. pose proof (g_rl _ HI) as Gr.
+  pose proof (g_err _ HI) as Ge.
+  destruct (tpc tk) eqn:Ep; try discriminate.
+  - (* Start *)
+    destruct (mc tk).
+    + injection H as <- <-. split; [|eexists; split; [reflexivity|reflexivity]].
+      eapply set_same; [exact HI|exact Hn|rewrite Ep; reflexivity..|discriminate].
+    + destruct (prog tk) as [|a rest].
+      * injection H as <- <-. split; [|eexists; split; [reflexivity|reflexivity]].
+        eapply set_same; [exact HI|exact Hn|rewrite Ep; reflexivity..|discriminate].
+      * eapply begin_good; eauto.
+  - (* WaitRL *)
+    destruct (prog tk) as [|a rest] eqn:Epg; [discriminate|].
+    destruct (cancelled_at (rl st) t tk) eqn:Ec.
+    + injection H as <- <-. split; [|eexists; split; [reflexivity|reflexivity]].
+      counts Hn (mkTask (a :: rest) Dead false).
+      rewrite Ep in *. cbn [tpc is_inR is_inW is_HB is_holdRL b2n] in *.
+      unfold die, set_task, set_rl. rewrite ?Epg. norm.
+      apply (invg_upd st t tk (mkTask (a :: rest) Dead false)); norm;
+        [exact HI|exact Hn|exact Ge|rewrite Ep; cbn [tpc is_inR b2n]; lia|lia|rewrite locked_resume; lia
+        |rewrite tids_resume; eapply q_del; [exact Hn|reflexivity|apply (g_qr _ HI)]
+        |eapply q_same; [exact Hn|rewrite Ep; reflexivity|apply (g_qw _ HI)]
+        |apply minv_resume; [apply (g_mr _ HI)|discriminate]|apply (g_mw _ HI)|discriminate].
+    + pose proof (not_cancelled_woken _ _ _ En Ec) as Hw.
+      pose proof (woken_unlocked _ _ (g_mr _ HI) Hw) as Elr.
+      match type of H with hold_rl ?m _ _ _ = _ => set (mid := m) in * end.
+      assert (Hmid : InvG mid).
+      { counts Hn (mkTask (a :: rest) HoldRL false).
+        rewrite Ep in *. cbn [tpc is_inR is_inW is_HB is_holdRL b2n] in *. rewrite Elr in Gr. cbn [b2n] in Gr.
+        unfold mid, set_task, set_rl. norm.
+        apply (invg_upd st t tk (mkTask (a :: rest) HoldRL false)); norm;
+          [exact HI|exact Hn|exact Ge|rewrite Ep; cbn [tpc is_inR b2n]; lia|lia|rewrite locked_resume; cbn [b2n]; lia
+          |rewrite tids_resume; eapply q_del; [exact Hn|reflexivity|apply (g_qr _ HI)]
+          |eapply q_same; [exact Hn|rewrite Ep; reflexivity|apply (g_qw _ HI)]
+          |apply minv_resume; [apply (g_mr _ HI)|intros _; exact Hw]|apply (g_mw _ HI)|discriminate]. }
+      assert (Hg : Good mid t st').
+      { eapply (hold_rl_good mid t (mkTask (a :: rest) HoldRL false));
+          [exact Hmid|eapply SE_upd; [exact Hs|reflexivity]
+          |unfold mid; cbn [tasks set_task set_rl]; eapply nth_error_upd_same; exact Hn
+          |reflexivity|exact H]. }
+      eapply Good_trans; [|exact Hg]. reflexivity.
+  - (* WaitWLr *)
+    destruct (prog tk) as [|a rest] eqn:Epg; [discriminate|].
+    destruct (cancelled_at (wl st) t tk) eqn:Ec.
+    + injection H as <- <-. split; [|eexists; split; [reflexivity|reflexivity]].
+      counts Hn (mkTask (a :: rest) Dead false).
+      rewrite Ep in *. cbn [tpc is_inR is_inW is_HB is_holdRL b2n] in *.
+      destruct (locked (rl st)) eqn:Elr; cbn [b2n] in Gr; [|lia].
+      unfold die, release_rl, set_task, set_wl, set_rl, set_err. rewrite ?Epg. norm.
+      apply (invg_upd st t tk (mkTask (a :: rest) Dead false)); norm;
+        [exact HI|exact Hn|rewrite Ge, Elr; reflexivity|rewrite Ep; cbn [tpc is_inR b2n]; lia
+        |rewrite locked_resume; lia|lia
+        |rewrite tids_release; eapply q_same; [exact Hn|rewrite Ep; reflexivity|apply (g_qr _ HI)]
+        |rewrite tids_resume; eapply q_del; [exact Hn|reflexivity|apply (g_qw _ HI)]
+        |apply minv_release, (g_mr _ HI)
+        |apply minv_resume; [apply (g_mw _ HI)|discriminate]|discriminate].
+    + pose proof (not_cancelled_woken _ _ _ En Ec) as Hw.
+      pose proof (woken_unlocked _ _ (g_mw _ HI) Hw) as Elw.
+      match type of H with hold_both ?m _ _ _ = _ => set (mid := m) in * end.
+      assert (Hmid : InvG mid).
+      { counts Hn (mkTask (a :: rest) HoldBoth false).
+        rewrite Ep in *. cbn [tpc is_inR is_inW is_HB is_holdRL b2n] in *. rewrite Elw in Gw. cbn [b2n] in Gw.
+        unfold mid, set_task, set_wl. norm.
+        apply (invg_upd st t tk (mkTask (a :: rest) HoldBoth false)); norm;
+          [exact HI|exact Hn|exact Ge|rewrite Ep; cbn [tpc is_inR b2n]; lia
+          |rewrite locked_resume; cbn [b2n]; lia|lia
+          |eapply q_same; [exact Hn|rewrite Ep; reflexivity|apply (g_qr _ HI)]
+          |rewrite tids_resume; eapply q_del; [exact Hn|reflexivity|apply (g_qw _ HI)]
+          |apply (g_mr _ HI)|apply minv_resume; [apply (g_mw _ HI)|intros _; exact Hw]|discriminate]. }
+      assert (Hg : Good mid t st').
+      { eapply (hold_both_good mid t (mkTask (a :: rest) HoldBoth false));
+          [exact Hmid|eapply SE_upd; [exact Hs|reflexivity]
+          |unfold mid; cbn [tasks set_task set_wl]; eapply nth_error_upd_same; exact Hn
+          |reflexivity|exact H]. }
+      eapply Good_trans; [|exact Hg]. reflexivity.
+  - (* InR *)
+    destruct (prog tk) as [|a rest] eqn:Epg; [discriminate|].
+    destruct (mc tk).
+    + rewrite <- Ep in H. eapply leave_good; eauto.
+    + match type of H with at_cs ?m _ _ _ _ = _ => set (mid := m) in * end.
+      assert (Hmid : InvG mid)
+        by (eapply set_same; [exact HI|exact Hn|rewrite Ep; reflexivity..|discriminate]).
+      assert (Hg : Good mid t st').
+      { eapply (at_cs_good mid t (mkTask (a :: rest) (AtR k) false));
+          [exact Hmid|eapply SE_upd; [exact Hs|reflexivity]
+          |unfold mid; cbn [tasks set_task]; eapply nth_error_upd_same; exact Hn
+          |exact H]. }
+      eapply Good_trans; [|exact Hg]. reflexivity.
+  - (* WaitWLw *)
+    destruct (prog tk) as [|a rest] eqn:Epg; [discriminate|].
+    destruct (cancelled_at (wl st) t tk) eqn:Ec.
+    + injection H as <- <-. split; [|eexists; split; [reflexivity|reflexivity]].
+      counts Hn (mkTask (a :: rest) Dead false).
+      rewrite Ep in *. cbn [tpc is_inR is_inW is_HB is_holdRL b2n] in *.
+      unfold die, set_task, set_wl. rewrite ?Epg. norm.
+      apply (invg_upd st t tk (mkTask (a :: rest) Dead false)); norm;
+        [exact HI|exact Hn|exact Ge|rewrite Ep; cbn [tpc is_inR b2n]; lia
+        |rewrite locked_resume; lia|lia
+        |eapply q_same; [exact Hn|rewrite Ep; reflexivity|apply (g_qr _ HI)]
+        |rewrite tids_resume; eapply q_del; [exact Hn|reflexivity|apply (g_qw _ HI)]
+        |apply (g_mr _ HI)
+        |apply minv_resume; [apply (g_mw _ HI)|discriminate]|discriminate].
+    + pose proof (not_cancelled_woken _ _ _ En Ec) as Hw.
+      pose proof (woken_unlocked _ _ (g_mw _ HI) Hw) as Elw.
+      match type of H with enter ?m _ _ _ _ = _ => set (st1 := m) in * end.
+      assert (Hg : Good st1 t st'); [|exact Hg].
+      eapply (enter_via st1 t KW a rest st' ev); [reflexivity| |exact Hs|eexists; exact Hn|exact H].
+      unfold st1.
+      counts Hn (mkTask (a :: rest) (AtW (ay a)) false).
+      rewrite Ep in *. cbn [tpc is_inR is_inW is_HB is_holdRL b2n] in *. rewrite Elw in Gw. cbn [b2n] in Gw.
+      unfold set_task, set_wl. norm.
+      apply (invg_upd st t tk (mkTask (a :: rest) (AtW (ay a)) false)); norm;
+        [exact HI|exact Hn|exact Ge|rewrite Ep; cbn [tpc is_inR b2n]; lia
+        |rewrite locked_resume; cbn [b2n]; lia|lia
+        |eapply q_same; [exact Hn|rewrite Ep; reflexivity|apply (g_qr _ HI)]
+        |rewrite tids_resume; eapply q_del; [exact Hn|reflexivity|apply (g_qw _ HI)]
+        |apply (g_mr _ HI)|apply minv_resume; [apply (g_mw _ HI)|intros _; exact Hw]|discriminate].
+  - (* InW *)
+    destruct (prog tk) as [|a rest] eqn:Epg; [discriminate|].
+    destruct (mc tk).
+    + rewrite <- Ep in H. eapply leave_good; eauto.
+    + match type of H with at_cs ?m _ _ _ _ = _ => set (mid := m) in * end.
+      assert (Hmid : InvG mid)
+        by (eapply set_same; [exact HI|exact Hn|rewrite Ep; reflexivity..|discriminate]).
+      assert (Hg : Good mid t st').
+      { eapply (at_cs_good mid t (mkTask (a :: rest) (AtW k) false));
+          [exact Hmid|eapply SE_upd; [exact Hs|reflexivity]
+          |unfold mid; cbn [tasks set_task]; eapply nth_error_upd_same; exact Hn
+          |exact H]. }
+      eapply Good_trans; [|exact Hg]. reflexivity.
+Qed.
+
+Lemma Stable_SE st t : Stable st -> SE st t.
+Proof. intros H u tk _ Hu. eapply H; exact Hu. Qed.
+
+Lemma run_inv st t st' ev : Inv st -> run Fixed st t = Some (st', ev) -> Inv st'.
+Proof.
+  intros (HI & Hst) H.
+  destruct (enabled st t) eqn:En; [|unfold run in H; rewrite En in H; discriminate].
+  destruct (nth_error (tasks st) t) as [tk|] eqn:Hn;
+    [|unfold enabled in En; rewrite Hn in En; discriminate].
+  eapply Good_Inv; [apply Stable_SE; exact Hst|]. eapply run_good; eauto using Stable_SE.
+Qed.
+
+Lemma invg_set_rl st m :
+  InvG st -> minv m -> tids m = tids (rl st) -> locked m = locked (rl st) -> InvG (set_rl st m).
+Proof.
+  intros HI Hm Ht Hl. constructor; cbn [set_rl err counter tasks rl wl];
+    [apply (g_err _ HI)|apply (g_cnt _ HI)|apply (g_wl _ HI)|rewrite Hl; apply (g_rl _ HI)
+    |rewrite Ht; apply (g_qr _ HI)|apply (g_qw _ HI)|exact Hm|apply (g_mw _ HI)|apply (g_prog _ HI)].
+Qed.
+
+Lemma invg_set_wl st m :
+  InvG st -> minv m -> tids m = tids (wl st) -> locked m = locked (wl st) -> InvG (set_wl st m).
+Proof.
+  intros HI Hm Ht Hl. constructor; cbn [set_wl err counter tasks rl wl];
+    [apply (g_err _ HI)|apply (g_cnt _ HI)|rewrite Hl; apply (g_wl _ HI)|apply (g_rl _ HI)
+    |apply (g_qr _ HI)|rewrite Ht; apply (g_qw _ HI)|apply (g_mr _ HI)|exact Hm|apply (g_prog _ HI)].
+Qed.
+
+Lemma flag_inv st t tk : Inv st -> nth_error (tasks st) t = Some tk ->
+  Inv (set_task st t (mkTask (prog tk) (tpc tk) true)).
+Proof.
+  intros (HI & Hst) Hn. split.
+  - eapply set_same; [exact HI|exact Hn|reflexivity..|]. cbn [tpc prog]. apply (g_prog _ HI _ _ Hn).
+  - intros u x. cbn [tasks set_task]. rewrite nth_error_upd, Hn.
+    destruct (Nat.eqb u t); [intro E; inversion E; subst; cbn [tpc]; eapply Hst; exact Hn|apply Hst].
+Qed.
+
+Lemma cancel_inv st t : Inv st -> Inv (cancel st t).
+Proof.
+  intros HIs. pose proof HIs as (HI & Hst). unfold cancel.
+  destruct (nth_error (tasks st) t) as [tk|] eqn:Hn; [|exact HIs].
+  destruct (tpc tk) eqn:Ep; try exact HIs; try (rewrite <- Ep; apply flag_inv; assumption).
+  - destruct (wst_of (waiters (rl st)) t) as [[]|]; try (rewrite <- Ep; apply flag_inv; assumption).
+    split; [|exact Hst]. apply invg_set_rl; [exact HI|apply minv_cancel, (g_mr _ HI)|apply tids_cancel|reflexivity].
+  - destruct (wst_of (waiters (wl st)) t) as [[]|]; try (rewrite <- Ep; apply flag_inv; assumption).
+    split; [|exact Hst]. apply invg_set_wl; [exact HI|apply minv_cancel, (g_mw _ HI)|apply tids_cancel|reflexivity].
+  - destruct (wst_of (waiters (wl st)) t) as [[]|]; try (rewrite <- Ep; apply flag_inv; assumption).
+    split; [|exact Hst]. apply invg_set_wl; [exact HI|apply minv_cancel, (g_mw _ HI)|apply tids_cancel|reflexivity].
+Qed.
+
+Lemma step_inv st l st' ev : Inv st -> step Fixed st l = Some (st', ev) -> Inv st'.
+Proof.
+  intros HI H. destruct l as [t|t]; cbn [step] in H.
+  - eapply run_inv; eauto.
+  - injection H as <- _. apply cancel_inv. exact HI.
+Qed.
+
+Lemma exec_inv sched : forall st st' ev, Inv st -> exec Fixed st sched = Some (st', ev) -> Inv st'.
+Proof.
+  induction sched as [|l r IH]; intros st st' ev HI H; cbn [exec] in H.
+  - injection H as <- _. exact HI.
+  - destruct (step Fixed st l) as [[st1 ev1]|] eqn:Es; [|discriminate].
+    destruct (exec Fixed st1 r) as [[st2 ev2]|] eqn:Ee; [|discriminate].
+    injection H as <- _. eapply IH; [eapply step_inv; eauto|exact Ee].
+Qed.
+
+Lemma nth_error_init progs t tk :
+  nth_error (tasks (init progs)) t = Some tk -> tpc tk = Start.
+Proof.
+  unfold init; cbn [tasks]. intro H. apply nth_error_In in H. apply in_map_iff in H as (p & <- & _). reflexivity.
+Qed.
+
+Lemma init_inv progs : Inv (init progs).
+Proof.
+  assert (Hz : forall f, f Start = false -> cnt f (tasks (init progs)) = 0).
+  { intros f Hf. apply cnt_zero. intros u tk Hu. rewrite (nth_error_init _ _ _ Hu). exact Hf. }
+  assert (Hq : forall f, f Start = false -> queue_ok f (tasks (init progs)) []).
+  { intros f Hf. split; [constructor|]. intro t. split; [intros []|].
+    intros (tk & Hu & Hx). rewrite (nth_error_init _ _ _ Hu) in Hx. congruence. }
+  split.
+  - constructor; try (rewrite !Hz by reflexivity); try reflexivity; try (apply Hq; reflexivity); try exact I.
+    intros t tk Hu. rewrite (nth_error_init _ _ _ Hu). discriminate.
+  - intros u tk Hu. rewrite (nth_error_init _ _ _ Hu). reflexivity.
+Qed.
+
+(* ------------------------------------------------------------ consequences *)
+Lemma inv_excl st : Inv st ->
+  writers_in st <= 1 /\ (writers_in st = 1 -> readers_in st = 0).
+Proof.
+  intros (HI & _). unfold writers_in, readers_in. pose proof (g_wl _ HI) as Gw.
+  destruct (locked (wl st)); cbn [b2n] in Gw; lia.
+Qed.
+
+Lemma stable_cnt_eq f g ts :
+  (forall p, stable p = true -> f p = g p) ->
+  (forall u tk, nth_error ts u = Some tk -> stable (tpc tk) = true) -> cnt f ts = cnt g ts.
+Proof.
+  intros Hfg. unfold cnt. induction ts as [|y r IH]; intro Hs; [reflexivity|]. cbn [filter].
+  rewrite (Hfg _ (Hs 0 y eq_refl)).
+  assert (Hr : forall u tk, nth_error r u = Some tk -> stable (tpc tk) = true)
+    by (intros u tk Hu; exact (Hs (S u) tk Hu)).
+  specialize (IH Hr). destruct (g (tpc y)); cbn [length]; rewrite IH; reflexivity.
+Qed.
+
+Definition is_start (p : pc) : bool := match p with Start => true | _ => false end.
+
+Lemma enabled_ready st u tk :
+  nth_error (tasks st) u = Some tk ->
+  (is_start (tpc tk) || is_inR (tpc tk) || is_inW (tpc tk) = true) -> stable (tpc tk) = true ->
+  enabled st u = true.
+Proof.
+  intros Hu Hp Hs. unfold enabled. rewrite Hu. destruct (tpc tk); cbn in *; congruence.
+Qed.
+
+Lemma no_deadlock st : Inv st -> (exists t, unfinished st t) -> exists t, enabled st t = true.
+Proof.
+  intros (HI & Hst) (t0 & tk0 & H0 & Hl0).
+  pose proof (g_wl _ HI) as Gw. pose proof (g_rl _ HI) as Gr.
+  (* a task at a yield or at its start is runnable *)
+  assert (Hrdy : forall f, (forall p, f p = true -> is_start p || is_inR p || is_inW p = true) ->
+                 1 <= cnt f (tasks st) -> exists t, enabled st t = true).
+  { intros f Hf Hc. apply cnt_pos_inv in Hc as (u & tk & Hu & Hx). exists u.
+    eapply enabled_ready; [exact Hu|apply Hf; exact Hx|eapply Hst; exact Hu]. }
+  destruct (cnt is_start (tasks st)) as [|n] eqn:Es;
+    [|eapply (Hrdy is_start); [intros p Hp; rewrite Hp; reflexivity|lia]].
+  destruct (cnt is_inR (tasks st)) as [|n] eqn:Er;
+    [|eapply (Hrdy is_inR); [intros p Hp; rewrite Hp; destruct (is_start p); reflexivity|lia]].
+  destruct (cnt is_inW (tasks st)) as [|n] eqn:Ew;
+    [|eapply (Hrdy is_inW); [intros p Hp; rewrite Hp; destruct (is_start p), (is_inR p); reflexivity|lia]].
+  assert (Hhb : cnt is_HB (tasks st) = 0).
+  { apply cnt_zero. intros u tk Hu. specialize (Hst u tk Hu). destruct (tpc tk); cbn in *; congruence. }
+  rewrite Hhb in Gw. cbn in Gw.
+  assert (Elw : locked (wl st) = false) by (destruct (locked (wl st)); cbn in Gw; [lia|reflexivity]).
+  destruct (waiters (wl st)) as [|e r] eqn:Eww.
+  - (* nobody waits for the write mutex: nobody holds the read mutex *)
+    assert (Hnw : forall u tk, nth_error (tasks st) u = Some tk -> is_waitWL (tpc tk) = false).
+    { intros u tk Hu. destruct (is_waitWL (tpc tk)) eqn:Ex; [|reflexivity].
+      destruct (g_qw _ HI) as (_ & Hq). assert (Hin : In u (tids (wl st))) by (apply Hq; eauto).
+      unfold tids in Hin. rewrite Eww in Hin. destruct Hin. }
+    assert (Ehr : cnt is_holdRL (tasks st) = 0).
+    { apply cnt_zero. intros u tk Hu. specialize (Hnw u tk Hu). specialize (Hst u tk Hu).
+      destruct (tpc tk); cbn in *; congruence. }
+    rewrite Ehr in Gr.
+    assert (Elr : locked (rl st) = false) by (destruct (locked (rl st)); cbn in Gr; [lia|reflexivity]).
+    destruct (waiters (rl st)) as [|e r] eqn:Erw.
+    + (* nobody waits at all: t0 cannot be unfinished *)
+      exfalso.
+      assert (Hnr : is_waitRL (tpc tk0) = false).
+      { destruct (is_waitRL (tpc tk0)) eqn:Ex; [|reflexivity].
+        destruct (g_qr _ HI) as (_ & Hq). assert (Hin : In t0 (tids (rl st))) by (apply Hq; eauto).
+        unfold tids in Hin. rewrite Erw in Hin. destruct Hin. }
+      pose proof (Hnw _ _ H0) as Hw0. pose proof (Hst _ _ H0) as Hs0.
+      assert (Hc : forall f, f (tpc tk0) = true -> cnt f (tasks st) = 0 -> False)
+        by (intros f Hf Hz; pose proof (cnt_pos f _ _ _ H0 Hf); lia).
+      destruct (tpc tk0) eqn:Ep; cbn in *; try discriminate.
+      * apply (Hc is_start); [reflexivity|exact Es].
+      * apply (Hc is_inR); [reflexivity|exact Er].
+      * apply (Hc is_inW); [reflexivity|exact Ew].
+    + destruct (free_head_ready _ (g_mr _ HI) Elr) as (u & Hin & Hr); [rewrite Erw; discriminate|].
+      destruct (g_qr _ HI) as (_ & Hq). apply Hq in Hin as (tk & Hu & Hx).
+      exists u. unfold enabled. rewrite Hu. destruct (tpc tk); cbn in Hx; try discriminate. exact Hr.
+  - destruct (free_head_ready _ (g_mw _ HI) Elw) as (u & Hin & Hr); [rewrite Eww; discriminate|].
+    destruct (g_qw _ HI) as (_ & Hq). apply Hq in Hin as (tk & Hu & Hx).
+    exists u. unfold enabled. rewrite Hu. destruct (tpc tk); cbn in Hx; try discriminate; exact Hr.
+Qed.
+
+(* ------------------------------------------------------------ a runnable task does run *)
+Lemma leave_some st t p rest d : kind_of_pc p <> None -> exists r, leave st t p rest d = Some r.
+Proof. unfold leave. destruct (kind_of_pc p); [eexists; reflexivity|congruence]. Qed.
+
+Lemma at_cs_some st t a rest p : (exists k, p = AtR k \/ p = AtW k) ->
+  exists r, at_cs st t a rest p = Some r.
+Proof.
+  intros (k & [->| ->]); destruct k; cbn [at_cs]; try (eexists; reflexivity);
+    apply leave_some; discriminate.
+Qed.
+
+Lemma enter_some st t k a rest : exists r, enter st t k a rest = Some r.
+Proof.
+  unfold enter.
+  destruct (at_cs_some (set_task st t (mkTask (a :: rest) (match k with KR => AtR (ay a) | KW => AtW (ay a) end) false))
+              t a rest (match k with KR => AtR (ay a) | KW => AtW (ay a) end)) as ([s e] & ->).
+  - exists (ay a). destruct k; auto.
+  - eexists; reflexivity.
+Qed.
+
+Lemma hold_both_some st t a rest : exists r, hold_both st t a rest = Some r.
+Proof. apply enter_some. Qed.
+
+Lemma hold_rl_some st t a rest : exists r, hold_rl st t a rest = Some r.
+Proof.
+  unfold hold_rl. destruct (counter st); [|apply hold_both_some].
+  destruct (m_acquire (wl st) t) as [[] m]; [apply hold_both_some|eexists; reflexivity].
+Qed.
+
+Lemma begin_some st t a rest : exists r, begin Fixed st t a rest = Some r.
+Proof.
+  unfold begin. destruct (ak a).
+  - destruct (m_acquire (rl st) t) as [[] m]; [apply hold_rl_some|eexists; reflexivity].
+  - destruct (m_acquire (wl st) t) as [[] m]; [apply enter_some|eexists; reflexivity].
+Qed.
+
+Lemma enabled_run st t : Inv st -> enabled st t = true -> exists r, run Fixed st t = Some r.
+Proof.
+  intros (HI & _) En. unfold run. rewrite En. cbn [negb]. unfold enabled in En.
+  destruct (nth_error (tasks st) t) as [tk|] eqn:Hn; [|discriminate].
+  pose proof (g_prog _ HI _ _ Hn) as Hp.
+  destruct (tpc tk) eqn:Ep; try discriminate.
+  - destruct (mc tk); [eexists; reflexivity|]. destruct (prog tk); [eexists; reflexivity|apply begin_some].
+  - destruct (prog tk) as [|a rest]; [exfalso; apply Hp; reflexivity|].
+    destruct (cancelled_at (rl st) t tk); [eexists; reflexivity|apply hold_rl_some].
+  - destruct (prog tk) as [|a rest]; [exfalso; apply Hp; reflexivity|].
+    destruct (cancelled_at (wl st) t tk); [eexists; reflexivity|apply hold_both_some].
+  - destruct (prog tk) as [|a rest]; [exfalso; apply Hp; reflexivity|].
+    destruct (mc tk); [apply leave_some; discriminate|apply at_cs_some; eauto].
+  - destruct (prog tk) as [|a rest]; [exfalso; apply Hp; reflexivity|].
+    destruct (cancelled_at (wl st) t tk); [eexists; reflexivity|apply enter_some].
+  - destruct (prog tk) as [|a rest]; [exfalso; apply Hp; reflexivity|].
+    destruct (mc tk); [apply leave_some; discriminate|apply at_cs_some; eauto].
+Qed.
+
+(* ------------------------------------------------------------ cancellation *)
+Lemma wst_of_cancel m t :
+  wst_of (waiters m) t = Some Pending -> wst_of (waiters (m_cancel m t)) t = Some Cancelled.
+Proof.
+  unfold m_cancel; cbn [waiters]. induction (waiters m) as [|[u s] r IH]; cbn; [discriminate|].
+  destruct (Nat.eqb_spec u t) as [->|Hne]; cbn.
+  - intro E; inversion E; subst. cbn. rewrite Nat.eqb_refl. reflexivity.
+  - rewrite (proj2 (Nat.eqb_neq u t) Hne). exact IH.
+Qed.
+
+(* the task will get CancelledError at its next step *)
+Definition doomed (st : state) (t : nat) (tk : task) : Prop :=
+  mc tk = true \/
+  (tpc tk = WaitRL /\ wst_of (waiters (rl st)) t = Some Cancelled) \/
+  (is_waitWL (tpc tk) = true /\ wst_of (waiters (wl st)) t = Some Cancelled).
+
+Lemma dead_at st t tk x : nth_error (tasks st) t = Some tk ->
+  exists tk', nth_error (tasks (set_task st t (mkTask x Dead false))) t = Some tk' /\ tpc tk' = Dead.
+Proof.
+  intro Hn. eexists; split; [cbn [tasks set_task]; eapply nth_error_upd_same; exact Hn|reflexivity].
+Qed.
+
+Lemma doomed_dies st t tk st2 ev :
+  nth_error (tasks st) t = Some tk -> doomed st t tk ->
+  run Fixed st t = Some (st2, ev) ->
+  exists tk', nth_error (tasks st2) t = Some tk' /\ tpc tk' = Dead.
+Proof.
+  intros Hn Hd H. unfold run in H. destruct (enabled st t); cbn [negb] in H; [|discriminate].
+  rewrite Hn in H.
+  assert (Hc1 : tpc tk = WaitRL -> cancelled_at (rl st) t tk = true).
+  { intro Ep. unfold cancelled_at. destruct Hd as [->|[(_ & ->)|(Hx & _)]]; [reflexivity|apply orb_true_r|].
+    rewrite Ep in Hx; discriminate. }
+  assert (Hc2 : is_waitWL (tpc tk) = true -> cancelled_at (wl st) t tk = true).
+  { intro Ep. unfold cancelled_at. destruct Hd as [->|[(Hx & _)|(_ & ->)]]; [reflexivity| |apply orb_true_r].
+    rewrite Hx in Ep; discriminate. }
+  assert (Hc3 : stable (tpc tk) = true -> is_waitRL (tpc tk) = false -> is_waitWL (tpc tk) = false -> mc tk = true).
+  { intros _ Ha Hb. destruct Hd as [Hm|[(Hx & _)|(Hx & _)]]; [exact Hm|rewrite Hx in Ha; discriminate|congruence]. }
+  destruct (tpc tk) eqn:Ep; try discriminate.
+  - rewrite Hc3 in H by reflexivity. injection H as <- _. unfold die. eapply dead_at; exact Hn.
+  - destruct (prog tk) as [|a rest]; [discriminate|]. rewrite Hc1 in H by reflexivity.
+    injection H as <- _. unfold die. eapply (dead_at (set_rl st _)); exact Hn.
+  - destruct (prog tk) as [|a rest]; [discriminate|]. rewrite Hc2 in H by reflexivity.
+    injection H as <- _. unfold die. eapply (dead_at (release_rl (set_wl st _))); exact Hn.
+  - destruct (prog tk) as [|a rest]; [discriminate|]. rewrite Hc3 in H by reflexivity.
+    unfold leave in H. cbn [kind_of_pc] in H. injection H as <- _.
+    eapply (dead_at (unlock_r st)). unfold unlock_r, release_wl. destruct (counter st) as [|[|n]]; exact Hn.
+  - destruct (prog tk) as [|a rest]; [discriminate|]. rewrite Hc2 in H by reflexivity.
+    injection H as <- _. unfold die. eapply (dead_at (set_wl st _)); exact Hn.
+  - destruct (prog tk) as [|a rest]; [discriminate|]. rewrite Hc3 in H by reflexivity.
+    unfold leave in H. cbn [kind_of_pc] in H. injection H as <- _.
+    eapply (dead_at (unlock_w st)). exact Hn.
+Qed.
+
+Lemma cancel_dooms st t : Inv st -> unfinished st t ->
+  enabled (cancel st t) t = true /\
+  exists tk, nth_error (tasks (cancel st t)) t = Some tk /\ doomed (cancel st t) t tk.
+Proof.
+  intros (HI & Hst) (tk & Hn & Hl). unfold cancel. rewrite Hn.
+  pose proof (Hst _ _ Hn) as Hs.
+  assert (Hflag : (is_start (tpc tk) || is_inR (tpc tk) || is_inW (tpc tk) = true \/
+                   (tpc tk = WaitRL /\ ready_wst (wst_of (waiters (rl st)) t) = true) \/
+                   (is_waitWL (tpc tk) = true /\ ready_wst (wst_of (waiters (wl st)) t) = true)) ->
+          enabled (set_task st t (mkTask (prog tk) (tpc tk) true)) t = true /\
+          exists tk', nth_error (tasks (set_task st t (mkTask (prog tk) (tpc tk) true))) t = Some tk' /\
+                      doomed (set_task st t (mkTask (prog tk) (tpc tk) true)) t tk').
+  { intro Hc. split.
+    - unfold enabled. cbn [tasks set_task rl wl]. rewrite (nth_error_upd_same _ _ _ _ Hn). cbn [tpc].
+      destruct Hc as [Hc|[(Ep & Hr)|(Ep & Hr)]].
+      + destruct (tpc tk); cbn in *; congruence.
+      + rewrite Ep. exact Hr.
+      + destruct (tpc tk); cbn in Ep; try discriminate; exact Hr.
+    - eexists. split; [cbn [tasks set_task]; eapply nth_error_upd_same; exact Hn|]. left. reflexivity. }
+  destruct (tpc tk) eqn:Ep; cbn in Hl, Hs; try discriminate;
+    try (apply Hflag; left; reflexivity).
+  - (* WaitRL *)
+    destruct (g_qr _ HI) as (_ & Hq).
+    assert (Hin : In t (tids (rl st))) by (apply Hq; exists tk; rewrite Ep; auto).
+    apply In_wst_of in Hin as (s & Hw). rewrite Hw. destruct s.
+    + split.
+      * unfold enabled. cbn [tasks set_rl rl]. rewrite Hn, Ep. rewrite (wst_of_cancel _ _ Hw). reflexivity.
+      * exists tk. split; [exact Hn|]. right; left. split; [exact Ep|]. cbn [set_rl rl]. apply wst_of_cancel. exact Hw.
+    + apply Hflag. right; left. rewrite Hw. auto.
+    + apply Hflag. right; left. rewrite Hw. auto.
+  - (* WaitWLr *)
+    destruct (g_qw _ HI) as (_ & Hq).
+    assert (Hin : In t (tids (wl st))) by (apply Hq; exists tk; rewrite Ep; auto).
+    apply In_wst_of in Hin as (s & Hw). rewrite Hw. destruct s.
+    + split.
+      * unfold enabled. cbn [tasks set_wl wl]. rewrite Hn, Ep. rewrite (wst_of_cancel _ _ Hw). reflexivity.
+      * exists tk. split; [exact Hn|]. right; right. split; [rewrite Ep; reflexivity|]. cbn [set_wl wl]. apply wst_of_cancel. exact Hw.
+    + apply Hflag. right; right. rewrite Hw. auto.
+    + apply Hflag. right; right. rewrite Hw. auto.
+  - (* WaitWLw *)
+    destruct (g_qw _ HI) as (_ & Hq).
+    assert (Hin : In t (tids (wl st))) by (apply Hq; exists tk; rewrite Ep; auto).
+    apply In_wst_of in Hin as (s & Hw). rewrite Hw. destruct s.
+    + split.
+      * unfold enabled. cbn [tasks set_wl wl]. rewrite Hn, Ep. rewrite (wst_of_cancel _ _ Hw). reflexivity.
+      * exists tk. split; [exact Hn|]. right; right. split; [rewrite Ep; reflexivity|]. cbn [set_wl wl]. apply wst_of_cancel. exact Hw.
+    + apply Hflag. right; right. rewrite Hw. auto.
+    + apply Hflag. right; right. rewrite Hw. auto.
+Qed.
+
+(* cancelling any unfinished task: it is runnable, its next step ends it, and
+   the invariant (hence exclusion and deadlock freedom) holds afterwards *)
+Lemma cancel_ok st t : Inv st -> unfinished st t ->
+  exists st2 ev, run Fixed (cancel st t) t = Some (st2, ev) /\ Inv st2 /\
+                 exists tk, nth_error (tasks st2) t = Some tk /\ tpc tk = Dead.
+Proof.
+  intros HI Hu. destruct (cancel_dooms _ _ HI Hu) as (En & tk & Hn & Hd).
+  pose proof (cancel_inv _ t HI) as HI1.
+  destruct (enabled_run _ _ HI1 En) as ([st2 ev] & Hr).
+  exists st2, ev. split; [exact Hr|]. split; [eapply run_inv; eauto|eapply doomed_dies; eauto].
+Qed.
+
+(* ------------------------------------------------------------ the pre-fix algorithm *)
+Definition acq_ (k : kind) (y : nat) : acq := mkAcq k y false.
+
+(* writer inside, first reader queued on the write mutex, second reader walks in *)
+Lemma old_second_reader :
+  exists progs sched st ev,
+    exec Old (init progs) sched = Some (st, ev) /\ writers_in st = 1 /\ readers_in st = 1.
+Proof.
+  exists [[acq_ KW 2]; [acq_ KR 1]; [acq_ KR 1]], [Run 0; Run 1; Run 2].
+  eexists. eexists. split; [vm_compute; reflexivity|split; reflexivity].
+Qed.
+
+(* a queued first reader is cancelled: the counter stays at 1 for good, later
+   readers never take the write mutex again *)
+Lemma old_cancel_breaks :
+  exists progs sched st ev,
+    exec Old (init progs) sched = Some (st, ev) /\ writers_in st = 1 /\ readers_in st = 1 /\
+    counter st = 2 /\ waiters (wl st) = [].
+Proof.
+  exists [[acq_ KW 1; acq_ KW 1]; [acq_ KR 1]; [acq_ KR 3]],
+         [Run 0; Run 1; Cancel 1; Run 1; Run 0; Run 0; Run 2].
+  eexists. eexists. split; [vm_compute; reflexivity|repeat split; reflexivity].
+Qed.
+
+(* the same two schedules on the fixed algorithm *)
+Example fixed_second_reader_waits :
+  exists st ev, exec Fixed (init [[acq_ KW 2]; [acq_ KR 1]; [acq_ KR 1]]) [Run 0; Run 1; Run 2] = Some (st, ev)
+                /\ writers_in st = 1 /\ readers_in st = 0 /\ tids (rl st) = [2] /\ tids (wl st) = [1].
+Proof. eexists. eexists. split; [vm_compute; reflexivity|repeat split; reflexivity]. Qed.
